@@ -2209,14 +2209,14 @@ lx_dispatch_arm_harness!(2, 12, 6, lx_stat_opts_arm_percent_k2, stat_opts_modes,
 // Macro strings / operands in arithmetic-logical expressions (C06, C13): what the scanner hands out
 
 macro_rules! lx_eval_string_harness {
-    ($k:literal, $b:literal, $uw:literal, $name:ident) => {
+    ($k:literal, $b:literal, $uw:literal, $name:ident, $gen:expr) => {
 lx_harness! {
     #[kani::unwind($uw)]
     #[kani::stub(try_parse_decimal, stub_try_parse_decimal)]
     #[kani::stub(try_parse_hex_integer, stub_try_parse_hex)]
     #[kani::stub(is_macro_stat, stub_is_macro_stat)]
     fn $name() {
-        let t = Txt::<$k, $b>::any(PFX, &[]);
+        let t: Txt<$k, $b> = $gen;
         kani::assume(t.n >= 1);
         let flags = any_eval_flags();
         let pnl: u32 = kani::any();
@@ -2279,8 +2279,11 @@ lx_harness! {
 }
     };
 }
-lx_eval_string_harness!(3, 16, 5, lx_eval_string_k3);
-lx_eval_string_harness!(2, 12, 5, lx_eval_string_k2);
+lx_eval_string_harness!(3, 16, 5, lx_eval_string_k3, Txt::any(PFX, &[]));
+lx_eval_string_harness!(2, 12, 5, lx_eval_string_k2, Txt::any(PFX, &[]));
+// exactly n ASCII characters at constant byte positions (cheap enough for the quick tier)
+lx_eval_string_harness!(2, 8, 5, lx_eval_string_ascii_n2, Txt::ascii_exact());
+lx_eval_string_harness!(3, 8, 5, lx_eval_string_ascii_n3, Txt::ascii_exact());
 
 /// is_macro_stat hashes the identifier (phf/SipHash): arbitrary answer.
 pub(crate) fn stub_is_macro_stat(_input: &str) -> bool {
